@@ -337,6 +337,18 @@ class FlowRobust:
                     fs = _st.pack(">IIIIIIII", 1, 0, 1, 1, 0, 1, 2, 1) + rec
                     pkt = _st.pack(">II", 5, 1) + bytes([10, 0, 0, 1]) + _st.pack(">IIII", 0, 1, 2, 1) + _st.pack(">II", 1, len(fs)) + fs
                     out.append("sflow %s" % hx(pkt))
+        # ... and CHAINS of IPv6 extension headers with every kind of length octet (0, 1, 254, 255: the extreme ones wrap in 8-bit
+        # arithmetic), each announcing another extension header: whoever walks such a chain must get to its end
+        for nh in (0, 43, 60):
+            for nh2 in (0, 43, 60, 44):
+                for el in (0, 1, 254, 255):
+                    ext = bytes([nh2, el]) + bytes(rng.choice([0, nh2, 255]) for _ in range(46))
+                    v6 = _st.pack(">IHBB", 6 << 28, len(ext), nh, 64) + bytes(rng.randrange(256) for _ in range(32)) + ext
+                    for hp, h in ((1, bytes(12) + b"\x86\xdd" + v6), (12, v6)):
+                        rec = _st.pack(">II", 1, 16 + len(sfgen.xdr_pad(h))) + _st.pack(">IIII", hp, 1500, 0, len(h)) + sfgen.xdr_pad(h)
+                        fs = _st.pack(">IIIIIIII", 1, 0, 1, 1, 0, 1, 2, 1) + rec
+                        pkt = _st.pack(">II", 5, 1) + bytes([10, 0, 0, 1]) + _st.pack(">IIII", 0, 1, 2, 1) + _st.pack(">II", 1, len(fs)) + fs
+                        out.append("sflow %s" % hx(pkt))
         # every truncation offset (every short-read branch of the straight-line decoders) of a few sFlow datagrams and a v5 packet
         for _ in range(2 if tier == "quick" else 40):
             pkt = sfgen.gen_datagram(rng, kinds=["flow", "counter", "flow"])[0]
